@@ -77,6 +77,10 @@ var tqUnits = []string{"ns", "us", "ms", "s", "m", "h"}
 
 func tqDuration(r *h.Rng) string {
 	s := h.Pick(r, []string{"0", "1", "2", "10", "15", "100", "250", "999"})
+	if r.Chance(6) {
+		// up to and beyond the int64 overflow of the larger units, around 2^53 ns
+		s = h.Pick(r, []string{"2562047", "2562048", "153722867", "153722868", "9223372036", "9223372037", "9007199254740993", "2502", "150120", "9223372036854775807", "9223372036854775808", "18446744073709551616"})
+	}
 	if r.Chance(25) {
 		s += "." + h.Pick(r, []string{"5", "25", "001", "75", "0", "50"})
 	}
@@ -148,7 +152,7 @@ func tqAgg(r *h.Rng) string {
 	num := tqNumber(r, true)
 	unit := ""
 	if attr == "duration" && !r.Chance(3) {
-		num = h.Pick(r, []string{"0", "1", "2", "15", "100", "1.5", "0.25", "-1"})
+		num = h.Pick(r, []string{"0", "1", "2", "15", "100", "1.5", "0.25", "-1", "2562047.5", "2562048", "9007199254740993", "0.000000001", "1.123456789012"})
 		unit = h.Pick(r, tqUnits)
 		if r.Chance(2) {
 			unit = "d"
@@ -258,7 +262,7 @@ func serTerm(t *traceql_parser.AttrSelector) ([]string, error) {
 	switch {
 	case t.Val.TimeVal != "":
 		num, unit := splitUnit(t.Val.TimeVal)
-		n, err := serNum(num, tqLimits{6, 3})
+		n, err := serNum(num, tqLimits{20, 12}) // Units.goParseDuration models the overflow checks and the fraction up to 13 digits
 		if err != nil {
 			return nil, err
 		}
@@ -331,7 +335,7 @@ func serTraceQL(s *traceql_parser.TraceQLScript) (string, error) {
 		} else {
 			lim := tqLimits{9, 6}
 			if a.Attr == "duration" {
-				lim = tqLimits{6, 3}
+				lim = tqLimits{20, 12}
 			}
 			n, err := serNum(a.Num, lim)
 			if err != nil {
